@@ -29,6 +29,9 @@ OrderOK(r) ==
         /\ r.order = c /\ r.order2 = c                                       \* order() returns the order set
         /\ (r.static = 1) = StaticOf(c) /\ (r.repeated = 1) = RepeatedOf(c) /\ (r.even = 1) = EvenOf(c) /\ r.axis = AxisOf(c)
         /\ r.ao = ao /\ r.am = am
+        \* set(axis, relative, parityEven, firstRepeats) with the components of the code yields that order
+        /\ r.setargs = <<AxisOf(c), IF StaticOf(c) THEN 0 ELSE 1, IF EvenOf(c) THEN 1 ELSE 0, IF RepeatedOf(c) THEN 1 ELSE 0>>
+        /\ r.setord = c
         /\ r.slots = <<1, 2, 3>>
         /\ r.toxyz = expectXYZ
         /\ (~RepeatedOf(c) => r.ctorxyz = fromXYZ /\ r.ctorxyz3 = fromXYZ /\ r.setxyz = fromXYZ /\ r.back = <<10, 20, 30>>)   \* mutually inverse permutations
